@@ -229,6 +229,7 @@ def handle_lemma(rep, name, assertions, budget, expect='unsat'):
 
 def run_property(pid, tier, seed):
     rep = Report(pid, tier, seed)
+    os.environ['PYVC_TIER'] = tier
     mod = importlib.import_module('specs.%s' % pid.lower())
     budget = 10000 if tier == 'quick' else 60000
     lock = load_lock().get(pid, {})
@@ -255,7 +256,7 @@ def finish(rep, mod):
     for v in rep.violations:
         hit = None
         for f in kf:
-            if v['key'] == f['key'] or v['key'].startswith(f['key']):
+            if v['key'] in f.get('keys', ()) or (f.get('key') and (v['key'] == f['key'] or v['key'].startswith(f['key']))):
                 if f.get('witness_sha') and v.get('input') is not None:
                     pass
                 hit = f
